@@ -4,13 +4,13 @@
    The specification (Spec/NextMatch.v) is an executable search; the first
    group of theorems shows that it really is "the least matching date-time not
    earlier than p" (so that it can serve as the oracle); the second group ties
-   the model of add_truncated to it.  Least-ness of the model's result is proved
-   for time fields only (C20_time_only), for one day designator alone
-   (C20_day_least) and for one day designator with an hour (C20_day_time_least,
-   appended below); known finding F10 shows it is false when a day designator
-   meets minute/second fields without an hour.  Week+weekday designators, days
-   29-31 / 361-366 and truncated points with their own zone rest on the
-   correspondence + oracle run. *)
+   the model of add_truncated to it.  This file: time fields only
+   (C20_time_only), one day designator alone (C20_day_least) or with an hour
+   (C20_day_time_least) for the values every month/year has.  Props/C20Ext.v
+   extends it to week+weekday (incl. week 53), day 29-31, day-of-year 361-366,
+   truncated points with their own zone, and both operand orders; known
+   finding F10 shows least-ness is false when a day designator meets
+   minute/second fields without an hour. *)
 From Coq Require Import QArith Qround List.
 From Iso Require Import Proofs.Tac Spec.Cal Spec.Instant Spec.NextMatch Model.Num Model.Duration Model.TimePoint
   Model.Truncated Proofs.NextMatchSpec Proofs.TruncSpec.
